@@ -94,4 +94,9 @@ CHECKS = {
         technique="fork + file-system-operation crash injector: the operation's trace of mutating file-system operations is recorded, then the process is killed (os._exit) before every operation and inside every write (torn variants); a fresh cache/store object reads the entry in both orders and the observation is classified (nothing / complete old / complete new, bystander unchanged); interposer trace cross-validated against strace in the thorough tier",
         text="Every operation boundary and three torn variants per write of every case (6 components x store fresh / overwrite same and other type / metadata store / remove / recursive removedir x value types incl. > 64 KiB) are enumerated exhaustively; the fault model is process death.",
         note="Power loss (unsynced pages, directory-entry ordering) is not modelled: the code never calls fsync. A complete value accompanied by default ('external') store metadata is accepted; contradictory size/md5/caller fields are not."),
+    "C12": dict(
+        category=_EXPL, design_ref="DESIGN.md section 4, C12 and 3.5",
+        technique="deterministic cooperative scheduler for real threads (one task runs between yield points; yield points = every cache operation of a proxy and, for file-backed caches, every mutating file-system operation); depth-first enumeration of schedules under a preemption bound, stateless re-execution; oracle = solo NoCache outcome per task + quiescent inspection of every served key",
+        text="10 thread-usable cache kinds x 7 (quick) / 13 (thorough) scenarios of overlapping queries; all schedules with <= 2 (3) preemptions up to a per-scenario budget; distinct interleavings counted from (task, op, key) traces. Exploration: preemption inside one in-memory cache operation is not explored.",
+        note="A task runs alone between yield points; branching only where the preempted operation's key is touched by another task."),
 }
